@@ -235,4 +235,10 @@ also("C18", "(R-NIL-LAZY) a map made for a nil receiver is stored back through t
 also("C19", "R-BUF-BOUND keeps one interval per state of knowledge about the argument's membership (unknown, present, absent), reads Len ± k guards, and R-EXACT-REGIME accepts Len >= cap as established by the interval analysis on every way to a removal.")
 also("C01", "(R-REBUILD-EMPTY) the subtree argument of the in-place rebuild, and of the helpers it is handed on to, is dereferenced only under a nil test - Remove rebuilds an empty tree once the last key is gone.")
 also("C07", "(R-SLICE-LEN) the slice Queue.Slice returns has, as a linear form over head, n and the buffer length, exactly n elements.")
-also("C20", "(R-TRUNC-PREFIX) Trunc backs up only when it cuts; (R-CMP-RANGE) comparison helpers chosen among named functions are followed.")
+# ---- eighth round (slips in refactored code)
+also("C01", "The helper that unlinks the in-order successor hands back a node whose small-side child is nil by a dominating branch fact (it is the minimum).")
+also("C04", "R-OK-FORWARD also reports an accessor that returns a lookup's value with the negation of that lookup's ok.")
+also("C10", "(R-DETACH-OLD-LINKS) in ring.Pop the receiver's links are read before they are overwritten (directly or through a link helper).")
+also("C13", "(R-BOUND-SIDE) where two sibling fields are indexed in one block and one index is tested against 0, the other is too.")
+also("C18", "A count handed to an unexported helper that answers at once for count 0 is zero only for an empty collection (len(x) or min(len(x), k), never len(x) - k).")
+also("C20", "(R-TRUNC-PREFIX) Trunc backs up only when it cuts; (R-CMP-RANGE) comparison helpers chosen among named functions are followed. (R-CMP-CHAIN) in CompareNatural's scope a comparison result returned under a test of itself is returned for both signs.")
